@@ -5,6 +5,7 @@
   the handle. The theorems say what each source guarantees; the fileid of a path is always `fnv64 path`.
 -/
 import Absnfs.ServerAttrs
+import Absnfs.ServerAttrs2
 import Gen.Facts
 open Absnfs Absnfs.Server
 
@@ -72,5 +73,23 @@ theorem same_path_same_attributes (fs : Fs.T) (p : Bytes) (a b : Attrs) (ha : Ma
   simp only [Except.ok.injEq] at hj
   subst hj
   exact ⟨by rw [h1, g1], by rw [h2, g2], by rw [h3, g3], by rw [h4, g4]⟩
+
+/-- Source 2 at handler level, with the coherence hypothesis discharged: after any history of requests on a new
+    server, an OK LOOKUP reply carries — for the object — the backend's lstat of dir-path/name (type, size, mode,
+    that path's fileid), cache hit or not, and — for the directory — the backend's lstat of the directory
+    handle's path (fetched with GetAttr, not taken from the handle's snapshot). -/
+theorem lookup_reply_after_any_history (s0 : St) (rs : List Req) (h0 : CInv s0) (s' : St) (c : Ctx) (args : Bytes) (fh : Nat)
+    (fa : Rfc.Fattr) (da : Option Rfc.Fattr)
+    (h : procLookup (runReqs s0 rs) c args = (s', .res ⟨0, .lookupOk fh (some fa) da⟩)) :
+    ∃ hd r1 name r2 n a, decFh' (runReqs s0 rs) args = some (hd, r1) ∧ decStr (runReqs s0 rs) r1 = some (name, r2) ∧
+      nodeOf (runReqs s0 rs) hd = some n ∧ MatchesLstat (runReqs s0 rs).fs (joinName n.path name) a ∧ fa = toFattr a ∧
+      (∀ i, Fs.lstat (runReqs s0 rs).fs (fsPath n.path) = .ok i →
+        ∃ b, MatchesLstat (runReqs s0 rs).fs n.path b ∧ da = some (toFattr b)) :=
+  procLookup_matches_after s0 rs h0 s' c args fh fa da h
+
+/-- MNT hands out a handle only for a path the backend has (whatever the cache holds) -/
+theorem mnt_only_existing (s s' : St) (c : Ctx) (args : Bytes) (fhb : Bytes) (auth : List Nat) (hc : AcCoherent s)
+    (h : procMnt s c args = (s', .res ⟨0, .mntOk fhb auth⟩)) :
+    ∃ raw r a, decStr s args = some (raw, r) ∧ MatchesLstat s.fs (cleanAbs raw) a := procMnt_exists s s' c args fhb auth hc h
 
 end Props.C04
